@@ -6,8 +6,10 @@
    for negatives); ALONG AN AXIS of an array of any rank (via the lane theorem of C08): unpacking multiplies the axis
    length by eight and every lane of the result is the unpacking of the corresponding lane; packing divides it by
    eight (rounded up) and packs every lane; unpacking then packing along the same axis returns the array.
-   MODELLED, NOT PROVED: the `count` argument of unpack_bits along an axis (checked by the correspondence run). *)
-From ArrRs Require Import Index Axis Axis_proofs Broadcast_proofs Reduce Along_proofs Bits Bits_proofs Along_uses.
+   WITH A BIT COUNT along an axis (C19_unpack_axis_count): every lane of the result is the first `stop` bits of the
+   unpacked lane — a non-negative count is the number of bits kept, a negative count trims that many bits off the end
+   (counts beyond the lane's bits are refused by the slice; a zero stop is outside the theorem). *)
+From ArrRs Require Import Index Axis Axis_proofs Broadcast_proofs Reduce Along_proofs Bits Bits_proofs Along_uses Bits_count.
 
 Theorem C19_byte : forall o b, (0 <= b < 256)%Z ->
   pack8 o (unpack8 o b) = b /\ length (unpack8 o b) = 8 /\
@@ -69,4 +71,20 @@ Proof. exact pack_unpack_axis. Qed.
 Example C19_axis_nonvacuous :
   unpack_bits (mk [1;2;3;4]%Z [2;2]) (Some (-2)%Z) None (Ok Little) =
     Ok (mk [1;0; 0;1; 0;0; 0;0; 0;0; 0;0; 0;0; 0;0; 1;0; 1;0; 0;1; 0;0; 0;0; 0;0; 0;0; 0;0]%Z [16;2]).
+Proof. vm_compute. reflexivity. Qed.
+
+Theorem C19_unpack_axis_count : forall (a : arr Z) z c o,
+  wf a -> pos_shape (shape a) -> (Z.of_nat (ndim a) < two64)%Z -> axis_ok (ndim a) z ->
+  let ax := norm_nat (ndim a) z in
+  let L := nth ax (shape a) 0 in
+  let stop := if (0 <=? c)%Z then Z.to_nat c else L * 8 - Z.to_nat (- c) in
+  (if (0 <=? c)%Z then (Z.to_nat c <= L * 8) else (- c <= Z.of_nat (L * 8))%Z) ->
+  exists R, unpack_bits a (Some z) (Some c) (Ok o) = Ok R /\ wf R /\ shape R = upd (shape a) ax stop /\
+    forall p, in_range (shape R) p ->
+      get 0%Z R p = nth (nth ax p 0) (unpack_flat o (elems (lane 0%Z a ax (remove_nth p ax)))) 0%Z.
+Proof. exact unpack_axis_count_spec. Qed.
+
+Example C19_count_nonvacuous :
+  unpack_bits (mk [129; 3; 255; 16]%Z [2;2]) (Some 1%Z) (Some (-5)%Z) (Ok Big) =
+    Ok (mk [1;0;0;0;0;0;0;1;0;0;0; 1;1;1;1;1;1;1;1;0;0;0]%Z [2;11]).
 Proof. vm_compute. reflexivity. Qed.
